@@ -602,28 +602,79 @@ func checkErrorCodes(c *core.Ctx, r *core.Rule) {
 		r.Undecided("anchor:ErrorCode", "-", "ogenerrors.ErrorCode not found")
 		return
 	}
-	var isNI, asCT, asErr *ssa.Call
+	// a test is a direct errors.Is / errors.As call, or a call of a helper of the package whose boolean result is the
+	// result of such a call on its parameter (isInvalidContentType(err), asError(err))
+	type errTest struct {
+		ssa.Value
+		in ssa.Instruction
+	}
+	var isNI, asCT, asErr *errTest
+	asTarget := func(cl *ssa.Call) string {
+		tgt := cl.Common().Args[1]
+		if mi, ok := tgt.(*ssa.MakeInterface); ok {
+			tgt = mi.X
+		}
+		if p, ok := tgt.Type().(*types.Pointer); ok {
+			if _, n := core.NamedOf(p.Elem()); n == "InvalidContentTypeError" {
+				return "CT"
+			}
+			return "ERR"
+		}
+		return ""
+	}
+	classify := func(cl *ssa.Call) string {
+		switch {
+		case core.IsCallTo(cl.Common(), "github.com/go-faster/errors", "Is"):
+			return "NI"
+		case core.IsCallTo(cl.Common(), "github.com/go-faster/errors", "As"):
+			return asTarget(cl)
+		}
+		return ""
+	}
+	set := func(kind string, t *errTest) {
+		switch kind {
+		case "NI":
+			isNI = t
+		case "CT":
+			asCT = t
+		case "ERR":
+			asErr = t
+		}
+	}
 	for _, call := range core.Calls(ec) {
 		cl, ok := call.(*ssa.Call)
 		if !ok {
 			continue
 		}
-		switch {
-		case core.IsCallTo(cl.Common(), "github.com/go-faster/errors", "Is"):
-			isNI = cl
-		case core.IsCallTo(cl.Common(), "github.com/go-faster/errors", "As"):
-			// which target?
-			tgt := cl.Common().Args[1]
-			if mi, ok := tgt.(*ssa.MakeInterface); ok {
-				tgt = mi.X
-			}
-			if p, ok := tgt.Type().(*types.Pointer); ok {
-				if _, n := core.NamedOf(p.Elem()); n == "InvalidContentTypeError" {
-					asCT = cl
-				} else {
-					asErr = cl
+		if k := classify(cl); k != "" {
+			set(k, &errTest{cl, cl})
+			continue
+		}
+		h := cl.Common().StaticCallee()
+		if h == nil || core.FuncPkgPath(h) != core.FuncPkgPath(ec) || len(h.Blocks) == 0 {
+			continue
+		}
+		res := h.Signature.Results()
+		if res.Len() == 0 || !isBoolT(res.At(res.Len()-1).Type()) {
+			continue
+		}
+		kind := ""
+		for _, hc := range core.Calls(h) {
+			if hcl, ok := hc.(*ssa.Call); ok {
+				if k := classify(hcl); k != "" && len(hcl.Common().Args) > 0 && len(h.Params) > 0 && hcl.Common().Args[0] == ssa.Value(h.Params[0]) {
+					kind = k
 				}
 			}
+		}
+		if kind == "" {
+			continue
+		}
+		var cond ssa.Value = cl
+		if res.Len() > 1 {
+			cond = extractOf(cl, res.Len()-1)
+		}
+		if cond != nil {
+			set(kind, &errTest{cond, cl})
 		}
 	}
 	if isNI == nil || asCT == nil || asErr == nil {
@@ -631,8 +682,8 @@ func checkErrorCodes(c *core.Ctx, r *core.Rule) {
 		return
 	}
 	// constants assigned on the true edges
-	codeOn := func(call *ssa.Call) (int64, bool) {
-		for _, eb := range core.EdgeBlocks(call, true) {
+	codeOn := func(call *errTest) (int64, bool) {
+		for _, eb := range core.EdgeBlocks(call.Value, true) {
 			// the phi at the merge takes a constant from a block dominated by eb
 			for _, b := range ec.Blocks {
 				for _, in := range b.Instrs {
@@ -661,24 +712,24 @@ func checkErrorCodes(c *core.Ctx, r *core.Rule) {
 	if k, ok := codeOn(isNI); ok && k == 501 {
 		r.Pass("ErrNotImplemented → 501")
 	} else {
-		r.Fail("ErrorCode:501", c.Pos(isNI.Pos()), "ErrNotImplemented is not mapped to 501")
+		r.Fail("ErrorCode:501", c.Pos(isNI.in.Pos()), "ErrNotImplemented is not mapped to 501")
 	}
 	if k, ok := codeOn(asCT); ok && k == 415 {
 		r.Pass("InvalidContentTypeError → 415")
 	} else {
-		r.Fail("ErrorCode:415", c.Pos(asCT.Pos()), "InvalidContentTypeError is not mapped to 415")
+		r.Fail("ErrorCode:415", c.Pos(asCT.in.Pos()), "InvalidContentTypeError is not mapped to 415")
 	}
 	// precedence: the generic arm is evaluated only when the content-type test failed
 	prec := false
-	for _, eb := range core.EdgeBlocks(asCT, false) {
-		if eb.Dominates(asErr.Block()) || eb == asErr.Block() {
+	for _, eb := range core.EdgeBlocks(asCT.Value, false) {
+		if eb.Dominates(asErr.in.Block()) || eb == asErr.in.Block() {
 			prec = true
 		}
 	}
 	if prec {
 		r.Pass("the content-type arm takes precedence over the generic Error arm")
 	} else {
-		r.Fail("ErrorCode:precedence", c.Pos(asErr.Pos()), "the generic Error arm is not evaluated after the InvalidContentTypeError arm: a DecodeRequestError wrapping an invalid content type is answered 400 instead of 415")
+		r.Fail("ErrorCode:precedence", c.Pos(asErr.in.Pos()), "the generic Error arm is not evaluated after the InvalidContentTypeError arm: a DecodeRequestError wrapping an invalid content type is answered 400 instead of 415")
 	}
 	// default 500
 	def := false
@@ -695,9 +746,9 @@ func checkErrorCodes(c *core.Ctx, r *core.Rule) {
 			if ret, ok := in.(*ssa.Return); ok && len(ret.Results) == 1 {
 				if k, ok := core.ConstInt(ret.Results[0]); ok && k == 500 {
 					falseAll := true
-					for _, t := range []*ssa.Call{isNI, asCT, asErr} {
+					for _, t := range []*errTest{isNI, asCT, asErr} {
 						under := false
-						for _, eb := range core.EdgeBlocks(t, false) {
+						for _, eb := range core.EdgeBlocks(t.Value, false) {
 							if eb == b || eb.Dominates(b) {
 								under = true
 							}
